@@ -142,3 +142,82 @@ Fixpoint sfinal (s : sstate W) (ops : list (op W)) : sstate W :=
   | o :: r => sfinal (fst (sstep W C s o)) r
   end.
 End SpecAux.
+
+(* ------------------------------------------------------------------------
+   Two datasets without caches.  The null-hypothesis value of the ns-profile
+   function is recomputed by every initialisation of a trial, from that trial. *)
+Section MultiSpec.
+Variable W : world.
+Variable C : cfg.
+Variable MW : mworld W.
+Variable MC : mcfg.
+
+Record msstate := mkms {
+  p1 : sstate W; p2 : sstate W;
+  p_l0 : option (MOut MW);
+  p_wsrc : option (src W) }.
+
+Definition msinit (s0 : src W) : msstate := mkms (sinit W C s0) (sinit W C s0) None None.
+
+Definition obs_eval (o : obs W) : res (Out W) :=
+  match o with OEval _ r => r | _ => Err TypeError end.
+Definition obs_ns2 (o : obs W) : res (Out2 W) :=
+  match o with ONs2 _ r => r | _ => Err TypeError end.
+
+Definition mseval2 (s : msstate) (ns x : Z) : msstate * res (MOut MW) :=
+  let cur := ss_cur (p1 s) in
+  let '(a, o1) := sstep W C (p1 s) (Evaluate W (nsf MW cur 0 ns) x) in
+  match obs_eval o1 with
+  | Err e => (mkms a (p2 s) (p_l0 s) (Some cur), Err e)
+  | Ok v1 =>
+    let '(b, o2) := sstep W C (p2 s) (Evaluate W (nsf MW cur 1 ns) x) in
+    match obs_eval o2 with
+    | Err e => (mkms a b (p_l0 s) (Some cur), Err e)
+    | Ok v2 => (mkms a b (p_l0 s) (Some cur), Ok (mfin MW v1 v2 cur (ns, x)))
+    end
+  end.
+
+Definition msstep (s : msstate) (o : mop W) : msstate * mobs W MW :=
+  match o with
+  | MInit _ d1 d2 =>
+      let s1 := mkms (fst (sstep W C (p1 s) (InitTrial W d1))) (fst (sstep W C (p2 s) (InitTrial W d2)))
+                     (p_l0 s) (p_wsrc s) in
+      if m_profile MC then
+        let '(s2, r) := mseval2 s1 (m_ns0 MC) (m_x0 MC) in
+        match r with
+        | Ok v => (mkms (p1 s2) (p2 s2) (Some v) (p_wsrc s2), MInitO W MW (Ok 0))
+        | Err e => (s2, MInitO W MW (Err e))
+        end
+      else (s1, MInitO W MW (Ok 0))
+  | MEval _ ns x =>
+      let '(s', r) := mseval2 s ns x in
+      (s', MEvalO W MW (if m_profile MC then
+                          match r with
+                          | Ok v => match p_l0 s' with Some l => Ok (psub MW v l) | None => Err TypeError end
+                          | Err e => Err e
+                          end
+                        else r))
+  | MSrc _ sr =>
+      (mkms (fst (sstep W C (p1 s) (ChangeSource W sr))) (fst (sstep W C (p2 s) (ChangeSource W sr)))
+            (p_l0 s) (p_wsrc s), MNone W MW)
+  | MNs2 _ n =>
+      (s, MNs2O W MW (match p_wsrc s with
+                      | None => Err AttributeError
+                      | Some ws =>
+                        match obs_ns2 (snd (sstep W C (p1 s) (NsGrad2 W (nsf MW ws 0 n)))) with
+                        | Err e => Err e
+                        | Ok a => match obs_ns2 (snd (sstep W C (p2 s) (NsGrad2 W (nsf MW ws 1 n)))) with
+                                  | Err e => Err e
+                                  | Ok b => Ok (mg2 MW a b ws n)
+                                  end
+                        end
+                      end))
+  end.
+
+Fixpoint msrun (s : msstate) (ops : list (mop W)) : list (mobs W MW) :=
+  match ops with
+  | [] => []
+  | o :: r => let '(s', ob) := msstep s o in ob :: msrun s' r
+  end.
+
+End MultiSpec.
